@@ -154,7 +154,7 @@ impl Property for C19 {
 		24
 	}
 	fn cases(&self, tier: Tier) -> u64 {
-		tier.pick(4_000_000, 40_000_000)
+		tier.pick(8_000_000, 60_000_000)
 	}
 
 	fn run(&self, tape: &[u32], ctx: &mut Ctx) -> CaseResult {
